@@ -152,6 +152,12 @@ fn main() {
     let args: Vec<String> = std::env::args().collect();
     match args.get(1).map(|s| s.as_str()) {
         Some("refine") => refine(&args[2..]),
+        Some("dump") => {
+            let hs: u64 = arg(&args, "--history", "1").parse().unwrap();
+            let size = arg(&args, "--size", "");
+            let tx = arg(&args, "--tx", "");
+            falsify::dump_history(hs, size.parse().ok(), tx.parse().ok(), &arg(&args, "--filter", ""));
+        }
         Some("falsify") => {
             let prop = args.get(2).cloned().unwrap_or_default();
             let seed: u64 = arg(&args, "--seed", "1").parse().unwrap();
